@@ -223,6 +223,11 @@ fn main() {
         std::env::set_var("HOME", &home);
         std::env::set_var("XDG_CONFIG_HOME", home.join(".config"));
         std::env::remove_var("EMMYLUALS_CONFIG");
+        // the server's config loading probes for an external `luarocks` on every reload; an empty
+        // PATH makes that probe fail immediately and identically everywhere
+        let empty = PathBuf::from(&work).join("empty-path");
+        std::fs::create_dir_all(&empty).ok();
+        std::env::set_var("PATH", &empty);
     }
     world::install_panic_recorder();
     match args.prop.as_str() {
@@ -242,6 +247,10 @@ fn selftest(args: &Args) -> ! {
     let cands = c28::candidates();
     let msgs: Vec<&(String, world::Msg)> = cands.iter().filter(|c| c.0 == "hover" || c.0 == "didChange:a").collect();
     let scn = c28::base_scenario("timing", &msgs, false);
+    world::PROFILE.store(true, std::sync::atomic::Ordering::Relaxed);
+    let _ = world::run(&scn, &[], &thread_root(args));
+    let _ = world::run(&scn, &[], &thread_root(args));
+    world::PROFILE.store(false, std::sync::atomic::Ordering::Relaxed);
     let t0 = std::time::Instant::now();
     let n = 50;
     let mut dec = 0;
@@ -250,5 +259,16 @@ fn selftest(args: &Args) -> ! {
         dec += e.trace.points.len();
     }
     println!("selftest: {n} executions, {} decisions, {:.2} ms per execution", dec, t0.elapsed().as_secs_f64() * 1000.0 / n as f64);
+    let t1 = std::time::Instant::now();
+    std::thread::scope(|s| {
+        for _ in 0..16 {
+            s.spawn(|| {
+                for _ in 0..300 {
+                    let _ = world::run(&scn, &[], &thread_root(args));
+                }
+            });
+        }
+    });
+    println!("selftest: 16 threads x 300 executions in {:.2} s => {:.2} ms per execution per thread", t1.elapsed().as_secs_f64(), t1.elapsed().as_secs_f64() * 1000.0 / 300.0);
     std::process::exit(0)
 }
